@@ -167,7 +167,7 @@ func isNothing(v any) bool { _, ok := v.(scriptref.Nothing); return ok }
 
 func multiHolder(vals []any, form string) any {
 	switch form {
-	case "wlist":
+	case "wlist", "rootw":
 		return l(vals...)
 	case "wmap":
 		out := map[string]any{}
@@ -227,6 +227,12 @@ func operandNode(o *opnd, side int, via, form, entry string, idx [2]int) *node {
 	case "multi":
 		if form == "desc" {
 			return scriptref.P(scriptref.K(key), scriptref.D(), scriptref.K("z"))
+		}
+		if form == "rootw" { // the many-valued operand anchored at $ (the document, not the element)
+			if entry == "filter" {
+				return scriptref.RP(scriptref.I(0), scriptref.K(key), scriptref.W())
+			}
+			return scriptref.RP(scriptref.K(key), scriptref.W())
 		}
 		return scriptref.P(scriptref.K(key), scriptref.W())
 	}
@@ -557,7 +563,7 @@ func summarise(dim func(vkey) string, failing []outcome, full ...string) string 
 
 var (
 	singleForms = []string{"child", "nested", "index", "root"}
-	multiForms  = []string{"wlist", "wmap", "desc"}
+	multiForms  = []string{"wlist", "wmap", "desc", "rootw"}
 )
 
 // mainVias lists the presentations that exist for the operand among const and
@@ -635,7 +641,7 @@ func runCell(c *core.Ctx, L, R *opnd, mk func(a, b *node) *node) []outcome {
 				rs = reprs
 				forms = []string{"child", "nested", "index", "root"}
 				if anyMulti {
-					forms = []string{"wlist", "wmap", "desc"}
+					forms = multiForms
 				}
 			}
 			goInt := lv == "constgo" || rv == "constgo"
@@ -871,7 +877,7 @@ func matchVsFilter(c *core.Ctx, op, probe string, L, R *opnd, all []outcome) {
 	var failing []outcome
 	var pairs []outcome
 	for _, o := range all {
-		if o.k.entry != "match" || o.k.form == "root" {
+		if o.k.entry != "match" || o.k.form == "root" || o.k.form == "rootw" {
 			continue
 		}
 		fk := o.k
